@@ -5,6 +5,7 @@ import StirVerif.C20.ProofsApply
 import StirVerif.C20.ProofsIter
 import StirVerif.C20.ProofsPos
 import StirVerif.C20.ProofsBlock
+import StirVerif.C20.ProofsGuard
 import StirVerif.C20.ProofsKL
 import StirVerif.C20.ProofsDescentModel
 import StirVerif.C20.ProofsGeoClass
@@ -239,7 +240,61 @@ theorem C20_class_ratio_threshold (thr S g : K) (hS : 0 < S) (hg : 10000 ≤ g) 
     ratioOrZero thr (g * S) S = 0 :=
   ratioOrZero_zero thr S g hS hg hthr
 
+/-- *"For data generated exactly from a model, the model parameters are a fixed point of the maximum-likelihood iterations"* —
+**exactly when the clause holds for one class** of `iterate_geo_norm` / `iterate_block_norm` (2D and 3D versions share the guard):
+with a model class sum `S > 0` and measured class sum `g·S`, the factor `g` is reproduced iff the class is at or above
+`threshold = find_max()/10000`, or `g < 10000`, or `g = 0`.  In particular the dynamic range of the class sums (compact source: a
+few counts at the fan edge; exponentially decaying factors) is irrelevant as long as the *factors* stay below `10000`.
+(Round 4: the harness now generates such data — class sums spanning 1e5..1e8 — for the FanProjData and DetPairData versions, so
+this theorem and `C20_class_ratio_fixed_point` describe executed branches: classes below the threshold that are kept because of
+the second disjunct.) -/
+theorem C20_class_ratio_fixed_point_iff (thr S g : K) (hS : 0 < S) :
+    ratioOrZero thr (g * S) S = g ↔ (thr ≤ g * S ∨ g < 10000 ∨ g = 0) :=
+  ratioOrZero_fixed_iff thr S g hS
+
+/-- the guard as such: it returns `measured/norm` iff `measured ≥ threshold`, or `measured < 10000·norm`, or the ratio is `0` anyway -/
+theorem C20_class_ratio_returns_ratio_iff (thr m n : K) :
+    ratioOrZero thr m n = m / n ↔ (thr ≤ m ∨ m < 10000 * n ∨ m / n = 0) :=
+  ratioOrZero_eq_div_iff thr m n
+
+/-- classes without counts: measured class sum exactly `0` gives the factor `0` for any model class sum (also `0`) and any
+threshold.  (Field convention `0/0 = 0`; the C++ computes `0.F/0.F = NaN` only if `threshold = 0`, i.e. if **all** measured class
+sums are `0` — the harness does not generate that; with some counts anywhere `0 >= threshold` and `0 < 10000·0` are both false
+and the result is the literal `0`.) -/
+theorem C20_class_ratio_empty_class (thr n : K) : ratioOrZero thr 0 n = 0 :=
+  ratioOrZero_zero_measured thr n
+
+/-- fixed point of one class when the model may have no counts in it (`S ≥ 0`): `g` where the model has counts, `0` where it has none -/
+theorem C20_class_ratio_fixed_point_nonneg (thr S g : K) (hS : 0 ≤ S) (hg : g < 10000) :
+    ratioOrZero thr (g * S) S = if S = 0 then 0 else g :=
+  ratioOrZero_fixed_nonneg thr S g hS hg
+
+/-- **negative witness for the `&&` variant** of the guard (`ratioAndVariant`: a refactoring of the duplicated condition into a
+helper that combines `measured >= threshold` and `measured < 10000*norm` with `&&` instead of `||`; seeded in round 3, missed by
+the flat generators): every class below the threshold comes back as `0`, so no positive factor of such a class is a fixed point of
+it — while the code's guard reproduces it. -/
+theorem C20_class_ratio_and_variant_fails (thr S g : K) (hS : 0 < S) (hg0 : 0 < g) (hg : g < 10000) (hthr : g * S < thr) :
+    ratioAndVariant thr (g * S) S ≠ g ∧ ratioOrZero thr (g * S) S = g :=
+  ratioAndVariant_not_fixed thr S g hS hg0 hg hthr
+
 end ordered
+
+/-- a class 10^6 below the largest one (threshold `10^6/10^4 = 100`, class sum `3/2 · 1`): kept by the code, zeroed by the `&&` variant -/
+example : ratioOrZero (100 : ℚ) ((3 / 2) * 1) 1 = 3 / 2 ∧ ratioAndVariant (100 : ℚ) ((3 / 2) * 1) 1 ≠ 3 / 2 :=
+  ⟨C20_class_ratio_fixed_point 100 1 (3 / 2) (by norm_num) (by norm_num),
+    (C20_class_ratio_and_variant_fails 100 1 (3 / 2) (by norm_num) (by norm_num) (by norm_num) (by norm_num)).1⟩
+
+/-- both directions of `C20_class_ratio_fixed_point_iff` are inhabited: a factor `20000` on a class at the threshold is kept,
+below it (and only there) it is lost -/
+example : ratioOrZero (5 : ℚ) (20000 * 1) 1 = 20000 ∧ ratioOrZero (30000 : ℚ) (20000 * 1) 1 ≠ 20000 := by
+  constructor
+  · exact (C20_class_ratio_fixed_point_iff 5 1 20000 (by norm_num)).2 (Or.inl (by norm_num))
+  · intro h
+    rcases (C20_class_ratio_fixed_point_iff 30000 1 20000 (by norm_num)).1 h with h | h | h <;> norm_num at h
+
+example : ratioOrZero (7 : ℚ) 0 0 = 0 ∧ ratioOrZero (7 : ℚ) 0 3 = 0 ∧ ratioOrZero (7 : ℚ) ((5 / 8) * 0) 0 = 0 :=
+  ⟨C20_class_ratio_empty_class 7 0, C20_class_ratio_empty_class 7 3, by
+    rw [C20_class_ratio_fixed_point_nonneg 7 0 (5 / 8) le_rfl (by norm_num)]; simp⟩
 
 /-- hypotheses of `C20_eff_fixed_point_positive` are satisfiable (2 rings of 8 detectors, ring difference 1, half fan 2) -/
 example : ∃ (eff : Tab ℚ) (model : Fan ℚ), (⟨2, 8, 1, 2⟩ : Dims).WF ∧ (∀ x ∈ (⟨2, 8, 1, 2⟩ : Dims).dets, 0 < eff.get x) ∧
@@ -264,6 +319,19 @@ theorem C20_block_fixed_point {d bd : Dims} (wf : d.WF) (wfb : bd.WF) (model blk
     (iterateBlock d bd (makeBlock d bd (applyBlock d bd model blk true)) model).get (blockKey d bd c)
       = blk.get (blockKey d bd c) :=
   iterateBlock_fixed wf wfb model blk hmodel halloc hblk hc
+
+/-- The same for **models with empty classes and any dynamic range** (compact source; round 4): a non-negative model, block
+factors below `10000` (zero allowed — a dead block pair): `iterate_block_norm` returns the block factor of every block pair in
+which the model has counts and `0` where it has none, however many orders of magnitude the measured block sums span (the
+`find_max()/10000` threshold never decides, cf. `C20_class_ratio_fixed_point_iff`).  The harness oracle
+`fixed-point-block-wide` / `…-zero-class` evaluates this statement on the implementation. -/
+theorem C20_block_fixed_point_nonneg_model {d bd : Dims} (wf : d.WF) (wfb : bd.WF) (model blk : Fan K)
+    (hmodel : ∀ c ∈ d.canon, 0 ≤ model.get (d.key c))
+    (halloc : ∀ c ∈ d.canon, bd.allocated (blockKey d bd c) = true)
+    (hblk : ∀ c ∈ d.canon, blk.get (blockKey d bd c) < 10000) {c : Key} (hc : c ∈ d.canon) :
+    (iterateBlock d bd (makeBlock d bd (applyBlock d bd model blk true)) model).get (blockKey d bd c)
+      = if (makeBlock d bd model).get (blockKey d bd c) = 0 then 0 else blk.get (blockKey d bd c) :=
+  iterateBlock_fixed_nonneg wf wfb model blk hmodel halloc hblk hc
 
 end block
 
